@@ -471,6 +471,7 @@ pub struct Runner {
     pub violations: Vec<Violation>,
     pub last: Option<Dump>,
     pub restarts: u32,
+    pub opened_once: bool,
     /// race steps in which both the parked ingestion and the start of the flush were observed
     pub races: u32,
     /// catalogue tables that received a row since the last restart (replayed rows count)
@@ -540,6 +541,7 @@ impl Runner {
             violations: vec![],
             last: None,
             restarts: 0,
+            opened_once: false,
             races: 0,
             cat_touched: BTreeSet::new(),
             cat_unflushed: BTreeSet::new(),
@@ -626,7 +628,16 @@ impl Runner {
     pub fn open(&mut self) -> Result<(), ()> {
         self.proc_ = Some(DbProc::spawn(self.scratch.path()));
         let mut cmd = vec![a("open")];
-        cmd.extend(self.opts.iter().cloned());
+        // (first_life_wal_files N): the first lifetime runs with max_wal_files = N, the later ones (and
+        // the model) with the max_wal_files of the options - a limit lowered at a restart
+        let first = field(&self.opts, "first_life_wal_files").map(|v| v[0].as_u64());
+        for o in self.opts.iter() {
+            match (o.tag(), first) {
+                ("max_wal_files", Some(n)) if !self.opened_once => cmd.push(lst(vec![a("max_wal_files"), Sx::int(n)])),
+                _ => cmd.push(o.clone()),
+            }
+        }
+        self.opened_once = true;
         self.req(lst(cmd), "open").map(|_| ())
     }
 
@@ -1050,6 +1061,8 @@ impl Runner {
                     p.close();
                 }
                 self.open()?;
+                // (a background flush the new lifetime starts on its own comes after the restart)
+                self.hops.push(lst(vec![a("restart")]));
                 self.restarts += 1;
                 self.cat_touched = self.cat_unflushed.clone();
             }
@@ -1063,19 +1076,15 @@ impl Runner {
             self.req(lst(vec![a("quiesce")]), "quiesce")?;
             let ev = self.events()?;
             self.record_ops(&ev, &batches, &touches, kind == "flush");
-            match kind.as_str() {
-                "evict" => self.hops.push(lst(vec![a("evict")])),
-                "restart" => self.hops.push(lst(vec![a("restart")])),
-                _ => {}
+            if kind == "evict" {
+                self.hops.push(lst(vec![a("evict")]));
             }
             return if self.violations.is_empty() { Ok(()) } else { Err(()) };
         }
         let (ev, d) = self.settle()?;
         self.record_ops(&ev, &batches, &touches, kind == "flush" || kind == "race");
-        match kind.as_str() {
-            "evict" => self.hops.push(lst(vec![a("evict")])),
-            "restart" => self.hops.push(lst(vec![a("restart")])),
-            _ => {}
+        if kind == "evict" {
+            self.hops.push(lst(vec![a("evict")]));
         }
         self.observe(&d);
         self.check_dump(&d, &kind);
